@@ -190,7 +190,7 @@ def gen_request(rng, k, node, nid, fault_rate, kinds):
         chain_has_prefix = True
     else:
         chain_has_prefix = node.has_prefix
-    paths = ["/a", "/b/c", "/", "/q%20x", "/a.b/c-d_e", "/a//b", "/proxy/http://other.test/x", "/b/../c/./d"]
+    paths = ["/a", "/b/c", "/", "/q%20x", "/a.b/c-d_e", "/a//b", "/proxy/http://other.test/x", "/b/../c/./d", "/\u00fc/x y", ""]
     if not chain_has_prefix and rng.random() < 0.15:
         paths = ["noslash", "x/y"]
     op["path"] = rng.choice(paths)
